@@ -42,6 +42,7 @@ def full_menu():
     m = ["$0x1", "$0x10", "$0xffffffffffffffff"]
     m += ["%" + r for r in R64 + R32 + R16 + R8]
     pairs = [(a, a) for a in R64] + [(a, b) for a in R64[:4] for b in R64[:4] if a != b]
+    pairs += [(a, a) for a in R32] + [("eax", b) for b in R32[8:]]      # 32-bit addressing, incl. %r10d..%r15d as index
     for a, b in pairs:
         for c in SCALES:
             m.append(f"(%{a},%{b},{c})")
@@ -109,6 +110,8 @@ def roundtrip_source(cls, part, nparts):
     dst = "%rdx" if cls == 64 else "%edx"
     out = [".text"]
     combos = [(a, b) for a in regs for b in regs if b not in ("rsp", "esp")]
+    if cls == 64:   # address-size-prefixed forms: 32-bit base/index registers in 64-bit code
+        combos += [(a, b) for a in R32[::3] for b in R32 if b != "esp"]
     for i, (a, b) in enumerate(combos):
         if i % nparts != part:
             continue
@@ -144,9 +147,10 @@ def run_roundtrip(shard, tier, h, res, known, clauses):
 def shards(tier):
     sh = [{"kind": "grammar", "lo": i, "n": 16} for i in range(16)]
     sh += [{"kind": "rt", "cls": 64, "part": i, "nparts": 8} for i in range(8)]
-    if tier == "thorough":
-        sh += [{"kind": "rt", "cls": 32, "part": i, "nparts": 2} for i in range(2)]
-        sh += ob.window_shards("quick")
+    sh += [{"kind": "rt", "cls": 32, "part": i, "nparts": 2} for i in range(2)]
+    sh += [{"kind": "exotic"}]
+    # real objdump output of the C08 byte windows: every line whose operands are inside the table is compared too
+    sh += [s for s in ob.window_shards("quick") if tier == "thorough" or s["kind"] == "one" or s.get("b0", 1) % 8 == 0]
     return sh
 
 
@@ -155,6 +159,8 @@ def run_shard(shard, tier, h, res, known):
         run_grammar(shard, tier, h, res, known, CLAUSES)
     elif shard["kind"] == "rt":
         run_roundtrip(shard, tier, h, res, known, CLAUSES)
+    elif shard["kind"] == "exotic":
+        ob.run_exotic(h, res, known, ("operands", "crash"))
     else:
         ob.run_window_shard(shard, "quick", h, res, known, ("operands", "crash"), ID)
 
